@@ -14,6 +14,14 @@
 //! compared too) and `may_have_internal_overlap` must answer `false`:
 //! PROPFAIL `derived layout rejected` otherwise.  `Derived` in `Props/C08.lean` is the proved
 //! counterpart (`merge_axes` is exercised here but is not a constructor of `Derived`).
+//!
+//! Capacity-expansion oracle (first clause, "accepted … for capacity expansion"): section (d)
+//! builds owned tensors with spare capacity whose growth axis has size 0/1 and any stride
+//! (`from_data_with_strides`, permutes/transposes of tensors with unit dims, `with_capacity`),
+//! then calls `has_capacity(axis, n)` and `append(axis, …)`.  Whenever `has_capacity` answers
+//! true or `append` succeeds, the GROWN `(shape, strides)` is sent as an `ov` request and must
+//! be accepted by `may_have_internal_overlap` and injective by brute force: PROPFAIL
+//! `capacity expansion accepted …` otherwise (Lean: `c08_expansion_checks_grown_layout`).
 use hcommon::{Args, Out, Rng};
 use rten_tensor::prelude::*;
 use rten_tensor::verif::{is_contiguous, may_have_internal_overlap};
@@ -51,12 +59,22 @@ fn brute_injective(shape: &[usize], strides: &[usize]) -> Option<bool> {
 }
 
 fn one(out: &mut Out, shape: &[usize], strides: &[usize]) {
-    one_ex(out, shape, strides, None)
+    one_ex(out, shape, strides, Want::Nothing)
 }
 
-/// `derived`: `Some(chain text)` when the layout is the result of real view operations on a
-/// contiguous tensor, in which case the check must accept it.
-fn one_ex(out: &mut Out, shape: &[usize], strides: &[usize], derived: Option<&str>) {
+/// What the property additionally demands of a layout.
+#[derive(Clone, Copy)]
+enum Want<'a> {
+    Nothing,
+    /// result of real view operations on a contiguous tensor (chain text): must be accepted
+    Derived(&'a str),
+    /// layout that `has_capacity` / `append` of an owned tensor accepted (context text): must be
+    /// accepted by the overlap check and alias-free
+    Expanded(&'a str),
+}
+
+fn one_ex(out: &mut Out, shape: &[usize], strides: &[usize], want: Want) {
+    let derived = matches!(want, Want::Derived(_)).then_some(());
     let req = format!(
         "ov {}",
         hcommon::join(shape.iter().zip(strides).map(|(a, b)| format!("{a},{b}")), " ")
@@ -74,8 +92,19 @@ fn one_ex(out: &mut Out, shape: &[usize], strides: &[usize], derived: Option<&st
                 if let Some(false) = brute_injective(shape, strides) {
                     fail = Some("accepted layout maps two valid indices to one offset".to_string());
                 }
-            } else if let Some(chain) = derived {
+            } else if let Want::Derived(chain) = want {
                 fail = Some(format!("derived layout rejected: contiguous {chain}"));
+            }
+            if let Want::Expanded(ctx) = want {
+                let inj = brute_injective(shape, strides);
+                if ov || inj == Some(false) {
+                    fail = Some(format!(
+                        "capacity expansion accepted a layout that {}{}: {ctx}",
+                        if ov { "the overlap check rejects" } else { "aliases" },
+                        if ov && inj == Some(false) { " and in which two valid indices share an offset" } else { "" }
+                    ));
+                }
+                out.bucket(if ov { "expand_grown_rejected" } else { "expand_grown_accepted" });
             }
             if derived.is_some() {
                 out.bucket(if shape.contains(&0) {
@@ -126,7 +155,7 @@ fn derived_chain(out: &mut Out, rng: &mut Rng, thorough: bool) {
     let t = Tensor::<u8>::zeros(shape.as_slice());
     let mut v: TensorView<u8> = t.view();
     let mut chain = format!("[{}]", hcommon::join(shape.iter(), ","));
-    one_ex(out, v.shape().as_ref(), v.strides().as_ref(), Some(&chain));
+    one_ex(out, v.shape().as_ref(), v.strides().as_ref(), Want::Derived(&chain));
     let n_ops = 1 + rng.usize_below(if thorough { 10 } else { 6 });
     for k in 0..n_ops {
         let nd = v.ndim();
@@ -241,7 +270,7 @@ fn derived_chain(out: &mut Out, rng: &mut Rng, thorough: bool) {
         chain += " | ";
         chain += &text;
         out.bucket(&format!("derived_step{}", (k + 1).min(9)));
-        one_ex(out, v.shape().as_ref(), v.strides().as_ref(), Some(&chain));
+        one_ex(out, v.shape().as_ref(), v.strides().as_ref(), Want::Derived(&chain));
         if v.shape().contains(&0) && !rng.chance(1, 4) {
             break; // an empty view stays empty; only sometimes keep going
         }
@@ -256,6 +285,169 @@ fn pick_range(rng: &mut Rng, size: usize) -> (usize, usize) {
     } else {
         let start = rng.usize_below(size + 1);
         (start, start + rng.usize_below(size - start + 1))
+    }
+}
+
+fn list(xs: &[usize]) -> String {
+    format!("[{}]", hcommon::join(xs.iter(), ","))
+}
+
+/// One owned tensor with spare capacity + growth probes.
+fn expansion_case(out: &mut Out, rng: &mut Rng, thorough: bool) {
+    let rank = 1 + rng.usize_below(if thorough { 5 } else { 4 });
+    let axis = rng.usize_below(rank);
+    let ctor = rng.below(3);
+    let spare = *rng.pick(&[0usize, 1, 2, 3, 5, 8, 16, 40, 200]);
+    let mut ctx;
+    // -- build ------------------------------------------------------------------------------
+    let built: Result<Tensor<u32>, String> = match ctor {
+        0 => {
+            // from_data_with_strides: growth axis of size 0/1 with an arbitrary stride; the other
+            // dims contiguous / permuted / stepped (so the layout itself is legal).
+            let mut shape: Vec<usize> = (0..rank).map(|_| 1 + rng.usize_below(4)).collect();
+            shape[axis] = rng.usize_below(2);
+            let mut order: Vec<usize> = (0..rank).filter(|&d| d != axis).collect();
+            if rng.chance(1, 2) {
+                rng.shuffle(&mut order);
+            }
+            let mut strides = vec![0usize; rank];
+            let mut p = 1usize;
+            for &d in order.iter().rev() {
+                let step = if rng.chance(1, 4) { 1 + rng.usize_below(3) } else { 1 };
+                strides[d] = p * step;
+                p = strides[d] * shape[d];
+            }
+            strides[axis] = match rng.below(6) {
+                0 => 0,
+                1 => 1,
+                2 => p,                              // dominating: steps over everything
+                3 => p.saturating_sub(1),            // just short of dominating
+                4 => *rng.pick(&strides),            // equal to another stride
+                _ => rng.usize_below(2 * p + 2),
+            };
+            let min_len = if shape.contains(&0) {
+                0
+            } else {
+                1 + shape.iter().zip(&strides).map(|(&n, &st)| (n - 1) * st).sum::<usize>()
+            };
+            let len = min_len + if rng.chance(1, 4) { rng.usize_below(3) } else { 0 };
+            let mut v: Vec<u32> = Vec::with_capacity(len + spare);
+            v.extend(0..len as u32);
+            ctx = format!("from_data_with_strides({},{}) len={len} cap={}", list(&shape), list(&strides), v.capacity());
+            Tensor::from_data_with_strides(shape.as_slice(), v, strides.as_slice()).map_err(|e| format!("{e:?}"))
+        }
+        1 => {
+            // from_data with unit dims, then permute / transpose / move_axis: the unit dims keep
+            // row-major strides that no longer step over the dims now inside them.
+            let mut shape: Vec<usize> = (0..rank)
+                .map(|_| if rng.chance(1, 3) { 1 } else { 1 + rng.usize_below(4) })
+                .collect();
+            shape[rng.usize_below(rank)] = 1;
+            let len: usize = shape.iter().product();
+            let mut v: Vec<u32> = Vec::with_capacity(len + spare);
+            v.extend(0..len as u32);
+            let cap = v.capacity();
+            let mut t = Tensor::from_data(shape.as_slice(), v);
+            match rng.below(3) {
+                0 => {
+                    t.transpose();
+                    ctx = format!("from_data({}) cap={cap} transpose", list(&shape));
+                }
+                1 => {
+                    let mut perm: Vec<usize> = (0..rank).collect();
+                    rng.shuffle(&mut perm);
+                    t.permute(perm.as_slice());
+                    ctx = format!("from_data({}) cap={cap} permute{perm:?}", list(&shape));
+                }
+                _ => {
+                    let (a, b) = (rng.usize_below(rank), rng.usize_below(rank));
+                    t.move_axis(a, b);
+                    ctx = format!("from_data({}) cap={cap} move_axis({a},{b})", list(&shape));
+                }
+            }
+            Ok(t)
+        }
+        _ => {
+            // with_capacity(shape, expand_dim), optionally permuted afterwards
+            let shape: Vec<usize> = (0..rank)
+                .map(|_| if rng.chance(1, 4) { 1 } else { 1 + rng.usize_below(4) })
+                .collect();
+            let dim = rng.usize_below(rank);
+            let mut t = Tensor::<u32>::with_capacity(shape.as_slice(), dim);
+            ctx = format!("with_capacity({},{dim})", list(&shape));
+            if rng.chance(1, 2) {
+                let mut perm: Vec<usize> = (0..rank).collect();
+                rng.shuffle(&mut perm);
+                t.permute(perm.as_slice());
+                ctx += &format!(" permute{perm:?}");
+            }
+            Ok(t)
+        }
+    };
+    out.bucket(["expand_ctor_fdws", "expand_ctor_unitperm", "expand_ctor_withcap"][ctor as usize]);
+    let mut t = match built {
+        Ok(t) => t,
+        Err(_) => {
+            out.bucket("expand_ctor_rejected");
+            return;
+        }
+    };
+    // the starting layout is an accepted layout too
+    one(out, t.shape().as_ref(), t.strides().as_ref());
+    // -- probe ------------------------------------------------------------------------------
+    // grow along a size-0/1 axis when there is one (3 times out of 4), else any axis
+    let small: Vec<usize> = (0..rank).filter(|&d| t.size(d) <= 1).collect();
+    let n_probes = 1 + rng.usize_below(3);
+    for _ in 0..n_probes {
+        let axis = if !small.is_empty() && !rng.chance(1, 4) { *rng.pick(&small) } else { rng.usize_below(rank) };
+        let shape: Vec<usize> = t.shape().to_vec();
+        let strides: Vec<usize> = t.strides().to_vec();
+        let new_size = shape[axis] + rng.usize_below(4) + rng.usize_below(2);
+        let mut grown = shape.clone();
+        grown[axis] = new_size;
+        {
+            // would the grown layout be legal at all? (independent of the capacity)
+            let mut two = shape.clone();
+            two[axis] = two[axis].max(2);
+            out.bucket(if may_have_internal_overlap(two.as_slice(), strides.as_slice()) {
+                "expand_axis_nondominating"
+            } else {
+                "expand_axis_dominating"
+            });
+        }
+        let hc = t.has_capacity(axis, new_size);
+        out.bucket(if hc { "expand_hc_true" } else { "expand_hc_false" });
+        if hc {
+            let c = format!("{ctx} | has_capacity({axis},{new_size}) = true");
+            one_ex(out, &grown, &strides, Want::Expanded(&c));
+        }
+        if rng.chance(1, 2) {
+            // append a zero-stride view of matching shape with `k` entries along `axis`
+            let k = new_size - shape[axis];
+            let mut oshape = shape.clone();
+            oshape[axis] = k;
+            let zeros = vec![0usize; rank];
+            let cell = [7u32];
+            let other = TensorView::from_slice_with_strides(oshape.as_slice(), &cell[..], zeros.as_slice()).unwrap();
+            match t.append(axis, &other) {
+                Ok(()) => {
+                    out.bucket("expand_append_ok");
+                    ctx += &format!(" | append({axis},+{k})");
+                    let (sh, st): (Vec<usize>, Vec<usize>) = (t.shape().to_vec(), t.strides().to_vec());
+                    let c = format!("{ctx} succeeded");
+                    one_ex(out, &sh, &st, Want::Expanded(&c));
+                    if !hc {
+                        out.case("# expansion", "append-ok", Some(&format!("append succeeded although has_capacity said false: {c}")), false);
+                    }
+                }
+                Err(_) => {
+                    out.bucket("expand_append_err");
+                    if hc {
+                        out.case("# expansion", "append-err", Some(&format!("append failed although has_capacity({axis},{new_size}) said true: {ctx}")), false);
+                    }
+                }
+            }
+        }
     }
 }
 
@@ -357,5 +549,18 @@ fn run(args: &Args) {
             );
         }
     }
-    out.finish("exhaustive (size,stride) lists of rank<=3 with sizes 0..3 and small strides, plus random layouts derived from contiguous ones by permutation, stepping, broadcasting, stride perturbation, arbitrary strides; plus (completeness oracle) every intermediate view of random chains of 1..6 (thorough 1..10) real TensorView operations (permuted, transposed, move_axis, slice with ranges of step 1..4 / indices incl. negative spellings, slice_axis, index_axis, split_at, insert_axis, remove_axis, squeezed, merge_axes) applied to contiguous tensors of rank 0..5 (thorough 0..6), sizes 0..9, which must all be accepted; non-trivial = rank>=2, no empty dim, some dim >1; distinct by request text");
+    // (d) capacity expansion of owned tensors (has_capacity / append).
+    let n = if args.thorough { 300_000 } else { 30_000 };
+    for _ in 0..n {
+        if let Err(m) = hcommon::catch(|| expansion_case(&mut out, &mut rng, args.thorough)) {
+            out.bucket("expand_panic");
+            out.case(
+                "# expansion",
+                "panic",
+                Some(&format!("constructor / has_capacity / append panicked on valid arguments: {m}")),
+                false,
+            );
+        }
+    }
+    out.finish("exhaustive (size,stride) lists of rank<=3 with sizes 0..3 and small strides, plus random layouts derived from contiguous ones by permutation, stepping, broadcasting, stride perturbation, arbitrary strides; plus (completeness oracle) every intermediate view of random chains of 1..6 (thorough 1..10) real TensorView operations (permuted, transposed, move_axis, slice with ranges of step 1..4 / indices incl. negative spellings, slice_axis, index_axis, split_at, insert_axis, remove_axis, squeezed, merge_axes) applied to contiguous tensors of rank 0..5 (thorough 0..6), sizes 0..9, which must all be accepted; plus (capacity expansion) owned tensors of rank 1..4 (thorough 1..5) with spare capacity 0..200 built by from_data_with_strides (growth axis of size 0/1 with zero / unit / dominating / just-short / duplicate / random stride), by transposing / permuting / move_axis-ing from_data tensors with unit dims, and by with_capacity (optionally permuted), probed with has_capacity(axis, size+0..4) and append of zero-stride views, where every layout has_capacity or append accepts must pass the overlap check and brute-force injectivity; non-trivial = rank>=2, no empty dim, some dim >1; distinct by request text");
 }
